@@ -1,14 +1,30 @@
-(* Props/C06.v -- property C06 (the node-diffing routine): BOUNDED theorem, the bound is part of the statement.
-   For every duplicate-free old sequence over 5 nodes and every duplicate-free new sequence over those 5 and a new
-   node (326 x 1957 pairs), called the way Keyed / Indexed call it (with the end marker appended to both), between
-   arbitrary siblings: the children afterwards are pre ++ new ++ post, and every node the routine touches belongs
-   to the old or the new sequence. The unbounded theorem is not proved. *)
+(* Props/C06.v -- property C06 (the node-diffing routine).
+   UNBOUNDED theorems (proved in Dom/ReconcileProof.v by a loop invariant, for all old / new node sequences and all
+   siblings around the region): whenever the child list before (pre ++ a ++ post) and the demanded child list after
+   (pre ++ b ++ post) are duplicate-free and a is non-empty, the routine raises no DOM exception, terminates within its
+   fuel, leaves exactly pre ++ b ++ post as children, and touches only nodes of a or b. Keyed / Indexed append the end
+   marker to both sequences, which makes a non-empty.
+   The earlier bounded theorems (by computation over 5 nodes) are superseded; their file is kept in coq/attic. *)
 From Coq Require Import List Arith Bool.
-From Syc Require Import Dom.Reconcile Dom.ReconcileFacts.
+From Syc Require Import Dom.Reconcile Dom.ReconcileProof.
 Import ListNotations.
 
-Theorem C06_reconcile_correct_bounded : all_ok [1; 2; 3; 4; 5] [11] [100] [200] 99 = true.
-Proof. exact reconcile_bounded_5. Qed.
+Theorem C06_reconcile_correct : forall pre a b post,
+  a <> [] -> NoDup (pre ++ a ++ post) -> NoDup b -> (forall x, In x b -> ~ In x pre /\ ~ In x post) ->
+  reconcile_ok pre a b post = true.
+Proof. exact reconcile_correct. Qed.
 
-Theorem C06_reconcile_correct_bounded_raw : all_ok_raw [1; 2; 3; 4] [11; 12] [100] [200] = true.
-Proof. exact reconcile_bounded_raw_4. Qed.
+Theorem C06_reconcile_spec : forall pre a b post,
+  a <> [] -> NoDup (pre ++ a ++ post) -> NoDup b -> (forall x, In x b -> ~ In x pre /\ ~ In x post) ->
+  exists t, reconcile (pre ++ a ++ post) a b = ROk (pre ++ b ++ post) t /\ Forall (fun x => In x a \/ In x b) t.
+Proof. exact reconcile_spec. Qed.
+
+(* the call pattern of Keyed / Indexed: the end marker m closes both sequences *)
+Theorem C06_reconcile_correct_marker : forall pre a0 b0 m post,
+  NoDup (pre ++ (a0 ++ [m]) ++ post) -> NoDup (pre ++ (b0 ++ [m]) ++ post) ->
+  reconcile_ok pre (a0 ++ [m]) (b0 ++ [m]) post = true.
+Proof. exact reconcile_correct_marker. Qed.
+
+Print Assumptions C06_reconcile_correct.
+Print Assumptions C06_reconcile_spec.
+Print Assumptions C06_reconcile_correct_marker.
